@@ -460,8 +460,47 @@ class _IntMeta(type):
         return _real_int(*a, **k)
 
 
+def _int_from_bytes(b, byteorder="big", *, signed=False):
+    if not _real_isinstance(b, SBytes):
+        return _real_int.from_bytes(b, byteorder, signed=signed)
+    if b.is_concrete():
+        return _real_int.from_bytes(_real_bytes(b.items), byteorder, signed=signed)
+    it = list(b.items)
+    if byteorder == "little":
+        it.reverse()
+    elif byteorder != "big":
+        raise ValueError("byteorder must be either 'little' or 'big'")
+    v = 0
+    for x in it:
+        v = (v << 8) | x
+    if signed and it:
+        sb = 1 << (8 * _real_len(it) - 1)
+        v = (v ^ sb) - sb
+    return v
+
+
+def _int_to_bytes(v, length=1, byteorder="big", *, signed=False):
+    """int.to_bytes for SymInt"""
+    if _real_isinstance(length, (SymInt, SymBool)):
+        length = length.__index__()
+    lo, hi = (-(1 << (8 * length - 1)), (1 << (8 * length - 1)) - 1) if (signed and length) else (0, (1 << (8 * length)) - 1)
+    if bool((v < lo) | (v > hi)):
+        raise OverflowError("int too big to convert" if bool(v > hi) else "can't convert negative int to unsigned")
+    if signed and length:
+        v = v + (1 << (8 * length))
+    out = [(v >> (8 * (length - 1 - i))) & 0xFF for i in range(length)]
+    if byteorder == "little":
+        out.reverse()
+    elif byteorder != "big":
+        raise ValueError("byteorder must be either 'little' or 'big'")
+    return SBytes(out, False)
+
+
+SymInt.to_bytes = _int_to_bytes
+
+
 class sym_int(metaclass=_IntMeta):
-    from_bytes = _real_int.from_bytes
+    from_bytes = staticmethod(_int_from_bytes)
 
 
 class _BoolMeta(type):
